@@ -2,6 +2,7 @@ SPECIFICATION MCSpec
 CONSTANTS
   Proc = {"s1", "s2", "s3"}
   CloneSeq <- Clones2
+  MaxCancels = 2
   Defect_CheckThenClone = FALSE
   Defect_UnlockedJoin = FALSE
   Defect_SplitDrop = FALSE
